@@ -384,7 +384,11 @@ func SimC01(c *CheckCtx, i int, r *Rng) error {
 	twoModules := i%6 == 5
 	if twoModules {
 		addSubModule(r, cfg, m)
+		// which module's packages come first in a run over both is part of the world: by turns the second
+		// module sorts after the main one ("libb") and before it ("corp/libb")
+		m.Sub.Path = []string{"libb", "corp/libb"}[(i/6)%2]
 		c.Env.Stats.Add("probe/two-module-world", 1)
+		c.Env.Stats.Add("probe/two-module-world/"+m.Sub.Path, 1)
 	}
 	scfg := DrawScriptConfig(r)
 	scfg.PDeclTypes = 0.5 // single-run scenarios may render new named types
